@@ -1,5 +1,6 @@
 import MosnVerif.Drive.Util
 import MosnVerif.Model.PoolSpec
+import MosnVerif.Model.StreamOnce
 namespace MosnVerif.Drive.C09
 open MosnVerif.Drive MosnVerif.Model.Pool
 
@@ -92,8 +93,61 @@ def conc (mr : String) (impl : List String) : String :=
     | none => "A V unreadable-observation"
   | _, _ => "E E bad-case"
 
+/-! ### kind `once`: overlapping ResetStream / DestroyStream calls on one BaseStream, one schedule per case -/
+section Once
+open MosnVerif.Model.StreamOnce
+
+def parseCalls (t : String) : Option (List Call) :=
+  t.toList.mapM (fun ch => if ch == 'R' then some Call.reset else if ch == 'D' then some Call.destroy else none)
+
+def parseSched (t : String) : Option (List Nat) :=
+  if t == "-" then some [] else (t.splitOn ",").mapM (·.toNat?)
+
+def renderOnce (c : Conf) : String := s!"{c.state}:{c.resets}:{c.destroys}"
+
+/-- the model under the harness' schedule: one `resume` per entry -/
+def onceTrace (c : Conf) : List Nat → List String
+  | [] => [s!"end:{if c.done then "1" else "0"}"]
+  | t :: s =>
+    let r := resume genProgs c t
+    if r.2 then renderOnce r.1 :: onceTrace r.1 s else ["blocked"]
+
+/-- `state:resets:destroys` as observed; a trailing `!` (the two listeners disagree) is unparsable on purpose -/
+def parseOnceObs (t : String) : Option (Nat × Nat × Nat) :=
+  match t.splitOn ":" with
+  | [a, b, d] => match a.toNat?, b.toNat?, d.toNat? with
+    | some a, some b, some d => some (a, b, d)
+    | _, _, _ => none
+  | _ => none
+
+/-- the property predicate along the implementation's observations: `onceSpec` after every step, with `finished`
+at the last one when every call returned; a run that ended in `deadlock` / `stuck` violates it. -/
+def onceSpecAlong (nR nC : Nat) : List String → Bool
+  | [] => false
+  | [e] => e == "end:1" && nC == 0
+  | [o, e] =>
+    match parseOnceObs o with
+    | some (st, r, d) => e == "end:1" && onceSpec nR nC true st r d
+    | none => false
+  | o :: rest =>
+    match parseOnceObs o with
+    | some (st, r, d) => onceSpec nR nC false st r d && onceSpecAlong nR nC rest
+    | none => false
+
+def once (threads sched : String) (impl : List String) : String :=
+  match (threads.splitOn ",").mapM parseCalls, parseSched sched with
+  | some ts, some sc =>
+    let modelToks := onceTrace (Conf.init genProgs ts) sc
+    let agree := impl == modelToks
+    let spec := onceSpecAlong (resetCalls ts) (ts.map List.length).sum impl
+    s!"{if agree then "A" else "D"} {if spec then "S" else "V"} {joinWith " " modelToks}"
+  | _, _ => "E E bad-case"
+
+end Once
+
 def run (caseToks impl : List String) : String :=
   match caseToks with
+  | ["once", threads, sched] => once threads sched impl
   | ["pool", kind, mc, mr, ops] => pool kind mc mr ops impl
   | ["conc", _, _, mr, _, _, _] => conc mr impl
   | _ => "E E unknown-kind"
